@@ -79,6 +79,7 @@ struct tdesc
     int prio;              // 0 normal 1 high 2 low
     int stack;             // 0 default 1 small 2 medium 3 large
     int spin;
+    int boost;             // number of back-off yields (yield_k, k >= 16: "pending_boost" yields)
 };
 
 struct program
@@ -119,6 +120,15 @@ static void run_task(program* P, int id)
         pika::this_thread::yield();
         ev("pb").i("t", id).i("w", (long long) pika::get_worker_thread_num()).done();
     }
+    if (d.boost > 0)
+    {
+        // the back-off used by contended spinlocks / yield_while / barrier: from the 16th round on the
+        // task yields with the "pending_boost" state and is rescheduled with boosted priority
+        int left = 16 + d.boost;
+        ev("pe").i("t", id).done();
+        pika::util::yield_while([&left] { return --left > 0; }, "life_harness");
+        ev("pb").i("t", id).i("w", (long long) pika::get_worker_thread_num()).done();
+    }
     if (d.wait_children)
     {
         for (std::size_t k = 0; k < d.children.size(); ++k)
@@ -149,6 +159,7 @@ static std::unique_ptr<program> make_program(vlog::rng& R, int ntasks)
         d.prio = R.chance(1, 5) ? 1 + (int) R.below(2) : 0;
         d.stack = R.chance(1, 4) ? 1 + (int) R.below(3) : 0;
         d.spin = (int) R.below(3);
+        d.boost = R.chance(1, 4) ? 1 + (int) R.below(40) : 0;
         if (d.parent > 0) P->t[d.parent].children.push_back(i);
     }
     for (int i = 1; i <= ntasks; ++i)
@@ -237,7 +248,10 @@ int main(int argc, char** argv)
 
         std::string a1 = "--pika:threads=" + std::to_string(threads);
         std::string a2 = std::string("--pika:scheduler=") + sched;
-        std::vector<char const*> av = {argv[0], a1.c_str(), a2.c_str()};
+        // the scheduling loop treats every max_busy_loop_count-th phase of a worker specially
+        static char const* BUSY[] = {"2000", "3", "7", "31", "120"};
+        std::string a3 = std::string("--pika:ini=pika.max_busy_loop_count=") + BUSY[R.below(5)];
+        std::vector<char const*> av = {argv[0], a1.c_str(), a2.c_str(), a3.c_str()};
         for (int i = 5; i < argc; ++i) av.push_back(argv[i]);
         ev("start").i("inc", inc).i("threads", threads).s("sched", sched).i("main", with_main).i("rv", rv).i("ntasks", ntasks).done();
         program* PP = P.get();
